@@ -8,6 +8,7 @@ import (
 	"path/filepath"
 	"runtime"
 	"strings"
+	"sync"
 	"sync/atomic"
 	"syscall"
 	"time"
@@ -33,7 +34,7 @@ func init() {
 			"wall-clock limits (30 s to observe a probe/sentinel, 60 s per call) only ever make a run inconclusive",
 			"race freedom is what the Go race detector reports on the executions produced (GORACE log, report blocks counted)",
 		},
-		Require: []string{"testdrv_histories", "testdrv_relistens", "testdrv_histories_with_differing_listener_options", "testdrv_sysex_sends", "mc_listento_sysex_lengths_swept", "mc_out_reopened_at_once", "testdrv_sends_before_first_listen", "testdrv_sends_closed", "testdrv_deliveries",
+		Require: []string{"testdrv_histories", "testdrv_relistens", "testdrv_histories_with_differing_listener_options", "testdrv_sysex_sends", "mc_listento_sysex_lengths_swept", "mc_out_reopened_at_once", "mc_out_closed_right_after_send", "mc_reaping_checks", "stop_called_by_listener_probes", "testdrv_sends_before_first_listen", "testdrv_sends_closed", "testdrv_deliveries",
 			"mc_histories", "mc_deliveries", "mc_overlapping_sends", "mc_exactly_once_checks", "mc_stop_stamp_checks", "mc_porcupine_histories", "mc_relistens", "mc_stops_with_traffic_in_flight", "open_unstartable_probes", "helper_dies_probes", "mc_slow_callback_stops", "close_with_traffic_probes", "mc_opens_from_dying_thread", "mc_listento_deliveries", "mc_dumps_sent_by_concurrent_senders", "mc_bursts_behind_slow_callback"},
 		Workers: 8,
 		UsesCur: true,
@@ -129,6 +130,7 @@ func runC17(c *mon.Ctx) {
 			defer setProcs(old)
 		}
 		runMidicatHistory(c, r, i)
+		CheckHelpersReaped(c, "concurrent history")
 		c.DistinctBytes([]byte(fmt.Sprint("mc", i)))
 		if i == 0 {
 			c.Sample("midicat-history", "ports opened twice, cycles of Listen / probe / concurrent senders / sentinel / stop / messages outside the window, Close twice, Send and Listen on closed ports; see rule")
@@ -138,6 +140,7 @@ func runC17(c *mon.Ctx) {
 	// (b2) ordinary MIDI messages of every length through midi.SendTo / midi.ListenTo on the same driver
 	c.Each("midicat-listento", c.N(16, 300), func(i int64, r *mon.Rand) {
 		runMidicatListenTo(c, r, i)
+		CheckHelpersReaped(c, "ListenTo / SendTo history")
 		c.DistinctBytes([]byte(fmt.Sprint("mclt", i)))
 	})
 
@@ -145,8 +148,8 @@ func runC17(c *mon.Ctx) {
 	c.Each("midicat-burst-behind-slow-callback", 1, func(_ int64, _ *mon.Rand) { runBurstBehindSlowCallback(c) })
 
 	// (c) no call blocks forever when the helper cannot be started
-	c.Each("open-unstartable", 6, func(i int64, _ *mon.Rand) {
-		mode := []string{"in", "out", "list", "outdies", "indies", "closebusy"}[i]
+	c.Each("open-unstartable", 7, func(i int64, _ *mon.Rand) {
+		mode := []string{"in", "out", "list", "outdies", "indies", "closebusy", "stopincallback"}[i]
 		exe, _ := os.Executable()
 		args := []string{"openprobe", mode}
 		if hd := os.Getenv("VERIF_HELPER_DIR"); hd != "" {
@@ -181,7 +184,9 @@ func runC17(c *mon.Ctx) {
 		}
 		lf.Close()
 		out, _ := os.ReadFile(logf)
-		if mode == "closebusy" {
+		if mode == "stopincallback" {
+			c.Count("stop_called_by_listener_probes", 1)
+		} else if mode == "closebusy" {
 			c.Count("close_with_traffic_probes", 1)
 		} else if mode == "outdies" || mode == "indies" {
 			c.Count("helper_dies_probes", 1)
@@ -195,7 +200,20 @@ func runC17(c *mon.Ctx) {
 		if mode == "closebusy" {
 			in["what"] = "slow listener (2 ms per message); a sender goroutine pumps 4000 messages and then closes the out-port; meanwhile the main goroutine calls stop and in.Close: closing with lines still queued must return"
 		}
+		if mode == "stopincallback" {
+			in["what"] = "history on the process-backed driver: in.Open, out.Open, stop := Listen(L), Send; the listener L itself calls stop() when the message arrives (listen until something arrives, then stop)"
+		}
 		switch {
+		case bytes.Contains(out, []byte("OPENPROBE-STOP-BLOCKED")):
+			// decided by the structure of the goroutine dump the child printed, not by the time it waited: the goroutine that
+			// runs the listener waits in the stop function for an acknowledgement, the goroutine that has to give it waits for
+			// the lock that the first one holds while it runs the listener
+			dump := string(out)
+			if strings.Contains(dump, "midicatdrv.(*in).Listen.func") && strings.Contains(dump, "sync.(*RWMutex).Lock") && strings.Contains(dump, "midicatdrv.(*in).fireCmd.func") {
+				c.ViolationSig("blocks-forever:stopincallback", "blocks-forever:stop-called-by-the-listener:midicatdrv", "a stop function called by the listener itself never returns on the process-backed driver (the listener runs under the port's read lock; stop waits for an acknowledgement from a goroutine that needs the write lock): the goroutine dump shows the cycle; afterwards every call on the port blocks as well", in, "stop returns; listening again works", clipStr(dump, 6000))
+			} else {
+				c.Inconclusive("stop called by the listener did not return, but the goroutine dump does not show the lock cycle: " + lastLine(dump))
+			}
 		case bytes.Contains(out, []byte("all goroutines are asleep - deadlock!")):
 			c.Violation("blocks-forever:"+mode, "a port call never returns (helper cannot be started / has died): the Go runtime reports 'all goroutines are asleep - deadlock!' | "+blockedFrame(string(out)), in, "the call returns (with an error)", clipStr(string(out), 4000))
 		case timedOut:
@@ -246,6 +264,62 @@ func OpenProbe(mode string) {
 	if err1 != nil || err2 != nil {
 		fmt.Println("OPENPROBE-SETUP-FAILED", err1, err2)
 		os.Exit(4)
+	}
+	if mode == "stopincallback" {
+		dir, _ := os.MkdirTemp("", "verif-stopcb")
+		defer os.RemoveAll(dir)
+		os.Setenv("VERIF_MC_DIR", dir)
+		if e1, e2 := ins[0].Open(), outs[0].Open(); e1 != nil || e2 != nil {
+			fmt.Println("OPENPROBE-SETUP-FAILED open:", e1, e2)
+			os.Exit(4)
+		}
+		returned := make(chan struct{})
+		var stop func()
+		var once sync.Once
+		ready := make(chan struct{})
+		stop, err = ins[0].Listen(func([]byte, int32) {
+			once.Do(func() {
+				<-ready
+				stop() // the listener stops the listening itself
+				close(returned)
+			})
+		}, drivers.ListenConfig{})
+		if err != nil {
+			fmt.Println("OPENPROBE-SETUP-FAILED Listen:", err)
+			os.Exit(4)
+		}
+		close(ready)
+		deadline := time.After(10 * time.Second)
+		for sent := 0; ; sent++ {
+			if sent < 2000 {
+				outs[0].Send([]byte{0x90, byte(sent & 127), 1})
+			}
+			select {
+			case <-returned:
+				// and listening again works
+				var n int64
+				stop2, err := ins[0].Listen(func([]byte, int32) { atomic.AddInt64(&n, 1) }, drivers.ListenConfig{})
+				for k := 0; k < 3000 && atomic.LoadInt64(&n) == 0 && err == nil; k++ {
+					outs[0].Send([]byte{0x90, 2, 2})
+					time.Sleep(2 * time.Millisecond)
+				}
+				if err != nil || atomic.LoadInt64(&n) == 0 {
+					fmt.Println("OPENPROBE-BAD after a stop called by the listener, listening again does not work:", err)
+					os.Exit(0)
+				}
+				stop2()
+				ins[0].Close()
+				outs[0].Close()
+				fmt.Println("OPENPROBE-OK stop called by the listener returned; listening again works")
+				return
+			case <-deadline:
+				buf := make([]byte, 1<<20)
+				fmt.Printf("%s\n", buf[:runtime.Stack(buf, true)])
+				fmt.Println("OPENPROBE-STOP-BLOCKED the stop function called by the listener has not returned after 10 s")
+				os.Exit(0)
+			case <-time.After(2 * time.Millisecond):
+			}
+		}
 	}
 	if mode == "closebusy" {
 		// close the in-port while lines are still queued between the helper and a slow listener
